@@ -358,10 +358,10 @@ theorem memberLen_optional_p17 (t : Ty) (v : Val) :
     Spec.memberLen t .optional v = max Spec.flagSize (Spec.alignTy t) + Spec.sizeTy t := by
   cases v <;> simp [Spec.memberLen]
 
-theorem sizerTail_ok_p17 {α : Type} (b : Bool) (cnt size pos1 : Nat) (rs1 : List Nat) (a x : α)
+theorem sizerTail_ok_p17 {α : Type} (b : Bool) (cnt el size pos1 : Nat) (rs1 : List Nat) (a x : α)
     (q : Nat) (rs' : List Nat) (p : Nat)
     (h : (if b = true then ((DRes.fail rs1 : DRes α), pos1)
-       else if cnt > remaining size pos1 then (.fail rs1, pos1)
+       else if cnt > remaining size pos1 / el then (.fail rs1, pos1)
        else if cnt > resizeLimit then (.throw (cnt :: rs1), pos1)
        else (.ok a pos1 (cnt :: rs1), pos1)) = (.ok x q rs', p)) :
     b = false ∧ cnt ≤ resizeLimit ∧ a = x ∧ pos1 = q := by
@@ -428,7 +428,7 @@ theorem field_spec_p17 (e : Endian) (all : List Member) (n : String) (t : Ty) (k
         obtain ⟨hq, _, _, hr⟩ := decScalar_prim_p17 e pr data pos rs c q rs2 hpos hd
         simp only at h
         generalize hcnt : (if c < 0 then sizeMax - c.natAbs else c.toNat) = cnt at h
-        obtain ⟨hlim, hrl, h3, h4⟩ := sizerTail_ok_p17 _ _ _ _ _ _ _ _ _ _ h
+        obtain ⟨hlim, hrl, h3, h4⟩ := sizerTail_ok_p17 _ _ _ _ _ _ _ _ _ _ _ h
         injection h3 with h6 h7
         subst h6 h4
         simp only [inRange, Bool.and_eq_true, decide_eq_true_eq] at hr
@@ -1451,6 +1451,17 @@ theorem lim_erase_p17 (n : String) (all : List Member) (g : Member → Option Na
   | none => rfl
   | some m => simp [hg]
 
+theorem resizeElem_erase_p17 (n : String) (all : List Member) :
+    resizeElem n (eraseEnumMs all) = resizeElem n all := by
+  unfold resizeElem
+  rw [find_sizer_erase_p17]
+  cases all.find? (fun m => decide (m.kind.sizer? = some n)) with
+  | none => rfl
+  | some m =>
+    obtain ⟨a, t, k⟩ := m
+    simp only [Option.map, eraseM_p17, Member.ty, codecSize_erase_p17]
+    rfl
+
 theorem decArray_erase_p17 (f : Nat → List Nat → DRes Val × Nat) (t : Ty) (cnt size pos : Nat) (rs : List Nat) :
     decArray f (eraseEnum t) cnt size pos rs = decArray f t cnt size pos rs := by
   cases t <;> first | rfl | simp [decArray, eraseEnum, isMessage, codecSize]
@@ -1463,7 +1474,7 @@ theorem memberStep_erase_p17 (e : Endian) (all : List Member) (n : String) (t : 
   unfold memberStep
   cases k with
   | plain =>
-    simp only [isSizer_erase_p17, sizerPrimOf_erase_p17, bound_erase_p17]
+    simp only [isSizer_erase_p17, sizerPrimOf_erase_p17, bound_erase_p17, resizeElem_erase_p17]
     rw [lim_erase_p17 n all _ (fun m => by cases m; rfl)]
   | optional => simp only [cppAlign_erase_p17, codecSize_erase_p17]
   | fixed c => simp only [decArray_erase_p17]
